@@ -405,10 +405,6 @@ def product_specs(chk):
 	rng = chk.rng
 	idx = 0
 	for opname in BIN_OPS:
-		for form in ("vv", "vs", "sv", "vl", "lv", "tv"):
-			for other in ("sym", "number"):
-				for n in (1, 3):
-					chk.case("symbolic", {"opname": opname, "form": form, "other": other, "n": n}, "arith-value")
 		for form in ("vv", "vs", "sv", "vl", "lv"):
 			for ka, kb in PAIRS:
 				for n in (0, 1, 2, 5):
@@ -451,6 +447,11 @@ def run(chk):
 	rng = chk.rng
 	for spec in product_specs(chk):
 		chk.case("arith", spec, "arith-" + spec["form"])
+	for opname in BIN_OPS:
+		for form in ("vv", "vs", "sv", "vl", "lv", "tv"):
+			for other in ("sym", "number"):
+				for n in (1, 3):
+					chk.case("symbolic", {"opname": opname, "form": form, "other": other, "n": n}, "arith-value")
 	# explicit length mismatches for every operand form
 	for opname in BIN_OPS:
 		for form in ("vv", "vl", "lv"):
